@@ -1,7 +1,7 @@
 //! This module has additional tools and functions for working with 3D isometries
 
 use crate::{Iso3, Point3, Result, UnitVec3, Vector3};
-use parry3d_f64::na::{try_convert, Matrix4, UnitQuaternion};
+use parry3d_f64::na::{try_convert, Matrix4, Rotation3, UnitQuaternion};
 use parry3d_f64::na::{Matrix3, Translation3};
 
 pub trait IsoExtensions3 {
@@ -239,8 +239,13 @@ impl IsoExtensions3 for Iso3 {
 }
 
 fn from_bases(e0: Vector3, e1: Vector3, e2: Vector3, origin: Option<Point3>) -> Result<Iso3> {
+    // The columns are orthonormal and right-handed by construction, so the matrix is converted
+    // directly: the iterative `UnitQuaternion::from_matrix` starts from the identity and does not
+    // move when the frame is a half turn away from it (its update vanishes for a symmetric matrix)
     let rot_m = Matrix3::from_columns(&[e0, e1, e2]);
-    let r = UnitQuaternion::from_matrix(&rot_m);
+    let r = UnitQuaternion::new_normalize(
+        UnitQuaternion::from_rotation_matrix(&Rotation3::from_matrix_unchecked(rot_m)).into_inner(),
+    );
     let t = if let Some(o) = origin {
         Translation3::from(o.coords)
     } else {
